@@ -103,16 +103,16 @@ Example oneof_nonvacuous_xs :
     (JObj [(s "eid", JStr (s "e")); (s "ctype", JStr (s "wide"))]).
 Proof. split; caseok. Qed.
 
-(* richer variants: no member; a scalar member; a non-flattened message member (multi-word field, bool-keyed map);
+(* richer variants: no member; a scalar member; a non-flattened message member (multi-word field, repeated double);
    a flattened message member (int64, repeated, map, double); two configured oneofs at once *)
 Example oneof_nonvacuous_os :
   oneof_case_ok os (q "Ev") [(s "eid", vstr "e")] (JObj [(s "eid", JStr (s "e"))]) /\
   oneof_case_ok os (q "Ev") [(s "eid", vstr "e"); (s "text", vstr "hi")]
     (JObj [(s "eid", JStr (s "e")); (s "text", JStr (s "hi")); (s "ctype", JStr (s "text"))]) /\
   oneof_case_ok os (q "Ev")
-    [(s "eid", vstr "e"); (s "note", FM [(s "body_text", vstr "b"); (s "w", vint 3); (s "bm", FMap [(VBool true, vstr "x")])])]
+    [(s "eid", vstr "e"); (s "note", FM [(s "body_text", vstr "b"); (s "w", vint 3); (s "fs", FL [FS (VFloat 4609434218613702656)])])]
     (JObj [(s "eid", JStr (s "e"));
-           (s "note", JObj [(s "bodyText", JStr (s "b")); (s "w", JNum 3); (s "bm", JObj [(s "true", JStr (s "x"))])]);
+           (s "note", JObj [(s "bodyText", JStr (s "b")); (s "w", JNum 3); (s "fs", JArr [jflt 4609434218613702656])]);
            (s "ctype", JStr (s "note"))]) /\
   oneof_case_ok os (q "Fl") [(s "eid", vstr "e"); (s "pic", picv)]
     (JObj ([(s "eid", JStr (s "e")); (s "ctype", JStr (s "pic"))] ++ picj)) /\
@@ -159,23 +159,120 @@ Example oneof_needs_types_plain :
   oneof_case_needs 6 os (q "Fl") [(s "eid", vstr "e"); (s "ec", FM [(s "nul_it", FM [])])].
 Proof. repeat split; vm_compute; reflexivity. Qed.
 
-(* variant_no_gap (hypothesis 7): the four value shapes the classifier misses *)
+(* variant_no_gap (hypothesis 7) excludes a multi-word field of a non-flattened member whose lowerCamel key folds onto another
+   field of the Go struct.  Every shape this condition was introduced for has been confirmed on the emitted code and is a
+   defect class now (below); what it still excludes beyond them is [oneof_no_gap_remainder]. *)
 Example oneof_needs_no_gap :
-  (* flattened: an empty `optional bytes` is dropped by omitempty *)
-  oneof_case_needs 7 os (q "Fl") [(s "eid", vstr "e"); (s "pic", FM [(s "ob", FS (VBytes []))])] /\
-  (* flattened: json.Marshal fails on map[bool]string, the error is swallowed, the variant is dropped *)
-  (* (confirmed on the emitted code and tagged since: defect class D4FlatVariantBoolMap) *)
+  (* flattened: an empty `optional bytes` is dropped by omitempty (class D4ReflectedEmptyOptBytes) *)
+  defects_C04 os (q "Fl") [(s "eid", vstr "e"); (s "pic", FM [(s "ob", FS (VBytes []))])] = [D4ReflectedEmptyOptBytes] /\
+  rt_holds Ex os (q "Fl") [(s "eid", vstr "e"); (s "pic", FM [(s "ob", FS (VBytes []))])] = false /\
+  (* flattened: json.Marshal fails on map[bool]string, the error is swallowed, the variant is dropped (class D4FlatVariantBoolMap) *)
   defects_C04 os (q "Fl") [(s "eid", vstr "e"); (s "pic", FM [(s "bm", FMap [(VBool true, vstr "x")])])] = [D4FlatVariantBoolMap] /\
-  (* non-flattened: "NaN" inside a repeated double is rejected by json.Unmarshal *)
-  oneof_case_needs 7 os (q "Ev") [(s "eid", vstr "e"); (s "note", FM [(s "fs", FL [FS (VFloat 9221120237041090561)])])] /\
-  (* non-flattened: "altText" folds onto the int32 field alttext *)
-  oneof_case_needs 7 os (q "Ev") [(s "eid", vstr "e"); (s "fo", FM [(s "alt_text", vstr "x")])].
+  (* non-flattened: "NaN" inside a repeated double is rejected by json.Unmarshal (class D4OneofVariantReflect) *)
+  defects_C04 os (q "Ev") [(s "eid", vstr "e"); (s "note", FM [(s "fs", FL [FS (VFloat 9221120237041090561)])])] = [D4OneofVariantReflect] /\
+  rt_holds Ex os (q "Ev") [(s "eid", vstr "e"); (s "note", FM [(s "fs", FL [FS (VFloat 9221120237041090561)])])] = false /\
+  (* non-flattened: map[bool]string is no target for json.Unmarshal (class D4OneofVariantBoolMap) *)
+  defects_C04 os (q "Ev") [(s "eid", vstr "e"); (s "note", FM [(s "bm", FMap [(VBool true, vstr "x")])])] = [D4OneofVariantBoolMap] /\
+  rt_holds Ex os (q "Ev") [(s "eid", vstr "e"); (s "note", FM [(s "bm", FMap [(VBool true, vstr "x")])])] = false /\
+  (* non-flattened: "altText" folds onto the int32 field alttext, which does not read a string (class D4OneofVariantFoldClash) *)
+  defects_C04 os (q "Ev") [(s "eid", vstr "e"); (s "fo", FM [(s "alt_text", vstr "x")])] = [D4OneofVariantFoldClash] /\
+  rt_holds Ex os (q "Ev") [(s "eid", vstr "e"); (s "fo", FM [(s "alt_text", vstr "x")])] = false.
 Proof. repeat split; vm_compute; reflexivity. Qed.
 
 (* defects_C04 = [] (hypothesis 2): the three classes of CodecCases.local_defects for this codec, on xs *)
 Example oneof_needs_no_defects :
   oneof_case_needs 2 xs (q "Event") [(s "image", FM [(s "size", vint 7)])] /\
   oneof_case_needs 2 xs (q "FlatEvent") [(s "eid", vstr "e"); (s "wide", FM [(s "alt_text", vstr "a")])].
+Proof. repeat split; vm_compute; reflexivity. Qed.
+
+(* ---- the decoder on contract-form input: two corners of encoding/json the model follows ------------------------------------------ *)
+Definition fs : schema :=
+  [ {| fl_path := s "x/f.proto"; fl_package := s "x.v1"; fl_gopkg := s "x"; fl_generate := true;
+       fl_messages :=
+  [ msg "Fold2" [fld "foo_bar" 1 KString Singular; fld "foobar" 2 KString Singular] [];
+    msg "Bm" [fld "flags" 1 KString (MapOf KBool); fld "name" 2 KString Singular] [];
+    msg "Floats" [fld "xs" 1 KDouble Repeated; fld "name" 2 KString Singular] [];
+    msg "FlatG" [fld "id" 1 KString Singular; set_oneof "c" (fld "fo" 2 (T "Fold2") Singular);
+                 set_oneof "c" (fld "bm" 3 (T "Bm") Singular); set_oneof "c" (fld "fl" 4 (T "Floats") Singular)] [oo "c" "kind" true];
+    msg "NestG" [fld "id" 1 KString Singular; set_oneof "c" (fld "fo" 2 (T "Fold2") Singular);
+                 set_oneof "c" (fld "bm" 3 (T "Bm") Singular)] [oo "c" "kind" false] ];
+       fl_enums := []; fl_services := [] |} ].
+
+(* flattened: the decoder collects "fooBar" and "foobar" into variantMap, json.Marshal writes them in byte order, and
+   json.Unmarshal matches "fooBar" case-insensitively onto the struct field foobar (no field is called fooBar or foo_bar
+   up to case), then "foobar" exactly: the later key wins, foo_bar is lost and nothing is reported.  The order of the keys
+   in the request does not matter (observed on the emitted code: {"fooBar":".","foobar":"..","kind":"fo"} -> fo:{foobar:".."}) *)
+Example flat_decode_fold_clash :
+  decode Ex fs (q "FlatG") (JObj [(s "fooBar", JStr (s ".")); (s "foobar", JStr (s "..")); (s "kind", JStr (s "fo"))])
+    = ROk [(s "fo", FM [(s "foobar", vstr "..")])] /\
+  decode Ex fs (q "FlatG") (JObj [(s "foobar", JStr (s "..")); (s "kind", JStr (s "fo")); (s "fooBar", JStr (s "."))])
+    = ROk [(s "fo", FM [(s "foobar", vstr "..")])] /\
+  (* non-flattened: the same folding happens while the variant is checked, then protojson reads the whole object *)
+  decode Ex fs (q "NestG") (JObj [(s "fo", JObj [(s "fooBar", JStr (s ".")); (s "foobar", JStr (s ".."))]); (s "kind", JStr (s "fo"))])
+    = ROk [(s "fo", FM [(s "foo_bar", vstr "."); (s "foobar", vstr "..")])].
+Proof. repeat split; vm_compute; reflexivity. Qed.
+
+(* map[bool]T is no target for json.Unmarshal: the contract form of a bool-keyed map inside a variant is refused, flattened
+   or not (observed on the emitted code: {"flags":{"true":"x"},"kind":"bm","name":"n"} is answered 400) *)
+Example variant_decode_bool_map_refused :
+  (exists e, decode Ex fs (q "FlatG") (JObj [(s "flags", JObj [(s "true", JStr (s "x"))]); (s "kind", JStr (s "bm")); (s "name", JStr (s "n"))])
+             = RErr e) /\
+  (exists e, decode Ex fs (q "NestG") (JObj [(s "bm", JObj [(s "flags", JObj [(s "true", JStr (s "x"))])]); (s "kind", JStr (s "bm"))])
+             = RErr e) /\
+  (* null leaves the map alone (for encoding/json and for protojson), and a variant without the map is read *)
+  decode Ex fs (q "NestG") (JObj [(s "bm", JObj [(s "flags", JNull); (s "name", JStr (s "n"))]); (s "kind", JStr (s "bm"))])
+    = ROk [(s "bm", FM [(s "name", vstr "n")])] /\
+  decode Ex fs (q "NestG") (JObj [(s "bm", JObj [(s "name", JStr (s "n"))]); (s "kind", JStr (s "bm"))])
+    = ROk [(s "bm", FM [(s "name", vstr "n")])].
+Proof. repeat split; try (eexists; vm_compute; reflexivity); vm_compute; reflexivity. Qed.
+
+(* what variant_no_gap still excludes although no defect class fires: the key folds onto a field that READS the value (both
+   are strings).  Not a failure of the round trip — every other hypothesis holds and so does the conclusion (json.Unmarshal
+   puts "." into foobar, then ".." over it; its result is only a check, protojson reads the object afterwards) — but the
+   proof does not follow encoding/json through a field that is assigned twice. *)
+Example oneof_no_gap_remainder :
+  let m := [(s "fo", FM [(s "foo_bar", vstr "."); (s "foobar", vstr "..")])] in
+  oneof_hyps fs (q "NestG") m = map (fun i => negb (Nat.eqb i 7)) (seq 0 8) /\ rt_holds Ex fs (q "NestG") m = true.
+Proof. split; vm_compute; reflexivity. Qed.
+
+(* ---- one refutation per defect class of the discriminated-oneof codec found by the side conditions (all confirmed on the
+   emitted code): the class fires alone, the encoder answers, and the decoder does not give the value back *)
+Definition refuted4_on (sc : schema) (d : c04_defect) (tn : str) (m : mval) : Prop :=
+  defects_C04 sc tn m = [d] /\
+  exists j, encode Ex sc tn m = ROk j /\ decode Ex sc tn j <> ROk (norm sc tn m).
+Ltac refute4on := split; [vm_compute; reflexivity | eexists; split; [vm_compute; reflexivity | vm_compute; discriminate]].
+
+Theorem refuted_oneof_member_is_discriminator :
+  refuted4_on os D4OneofMemberIsDiscriminator (q "Ev") [(s "eid", vstr "e"); (s "ctype", vstr "x")].
+Proof. refute4on. Qed.
+Theorem refuted_flat_variant_field_is_variant :
+  refuted4_on os D4FlatVariantFieldIsVariant (q "Fl") [(s "eid", vstr "e"); (s "self", FM [(s "self", vstr "x")])].
+Proof. refute4on. Qed.
+Theorem refuted_flat_variant_bool_map :
+  refuted4_on os D4FlatVariantBoolMap (q "Fl") [(s "eid", vstr "e"); (s "pic", FM [(s "bm", FMap [(VBool true, vstr "x")])])].
+Proof. refute4on. Qed.
+Theorem refuted_oneof_variant_bool_map :
+  refuted4_on os D4OneofVariantBoolMap (q "Ev") [(s "eid", vstr "e"); (s "note", FM [(s "bm", FMap [(VBool true, vstr "x")])])].
+Proof. refute4on. Qed.
+Theorem refuted_reflected_empty_opt_bytes :
+  refuted4_on os D4ReflectedEmptyOptBytes (q "Fl") [(s "eid", vstr "e"); (s "pic", FM [(s "ob", FS (VBytes []))])].
+Proof. refute4on. Qed.
+Theorem refuted_oneof_variant_fold_clash :
+  refuted4_on os D4OneofVariantFoldClash (q "Ev") [(s "eid", vstr "e"); (s "fo", FM [(s "alt_text", vstr "x")])].
+Proof. refute4on. Qed.
+(* D4OneofVariantReflect, the extension: NaN as an ELEMENT of a repeated double *)
+Theorem refuted_oneof_variant_reflect_nonfinite_element :
+  refuted4_on os D4OneofVariantReflect (q "Ev") [(s "eid", vstr "e"); (s "note", FM [(s "fs", FL [FS (VFloat 9221120237041090561)])])].
+Proof. refute4on. Qed.
+
+(* C05, response direction: NaN inside a repeated double of a flattened variant makes json.Marshal(inner) fail, the error is
+   swallowed and the server sends the discriminator only; the classes flat-oneof-child-encoding-json and reflected-child-encoding-json cover it
+   (CodecCases.reflect_differs looks inside lists and maps) *)
+Example c05_flat_variant_nonfinite_element :
+  let m := [(s "fl", FM [(s "xs", FL [FS (VFloat 9221120237041090561)]); (s "name", vstr "n")])] in
+  defects_C05 fs (q "FlatG") m = [D5FlatOneofChild; D5FlattenChild] /\
+  encode Ex fs (q "FlatG") m = ROk (JObj [(s "kind", JStr (s "fl"))]) /\
+  to_json Ex fs (q "FlatG") m = ROk (JObj [(s "kind", JStr (s "fl")); (s "xs", JArr [JStr (s "NaN")]); (s "name", JStr (s "n"))]).
 Proof. repeat split; vm_compute; reflexivity. Qed.
 
 (* wt1 accepts what wt rejects: a populated oneof member *)
